@@ -104,6 +104,11 @@ def run(ctx):
     ctx.require_min(R3, 12)
     from rules import _lints
     _lints.both_switch_ends(ctx, "FUSE-BOTH-ENDS")
+    R5 = "IS-FACTOR"
+    ctx.rule(R5, "adding an out-of-service element changes nothing: every term _calc_shunts_and_add_on_ppc accumulates inside an "
+                 "element block is multiplied by that element's in-service mask")
+    if _lints.in_service_factor(ctx, R5, ctx.repo.func("pandapower.build_bus:_calc_shunts_and_add_on_ppc")) < 10:
+        ctx.fail("IS-FACTOR: fewer than 10 accumulated terms found in _calc_shunts_and_add_on_ppc")
     _lints.dup_sweep(ctx, "DUP-OPERAND", ["pandapower.build_bus", "pandapower.pd2ppc", "pandapower.build_branch", "pandapower.build_gen",
                                          "pandapower.pypower.makeYbus"])
 
@@ -115,6 +120,8 @@ def variants(repo):
     rb = "pandapower/results_branch.py"
     V = Variant
     return [
+        V("table shunt without in-service mask", _bbu, replace_once('p = p + s["p_mw_table"].fillna(0).to_numpy() * v_ratio * vl', 'p = p + s["p_mw_table"].fillna(0).to_numpy() * v_ratio'), "IS-FACTOR"),
+        V("dc line resistance without parallel", bb, replace_once('branch_dc[f:t, DC_BR_R] = line_dc["r_ohm_per_km"].values * length_km / baseR / parallel', 'branch_dc[f:t, DC_BR_R] = line_dc["r_ohm_per_km"].values * length_km / baseR'), "line-dc"),
         V("tcsc to-bus not remapped", pd, lambda s: re.sub(r'\n    ppc\["tcsc"\]\[:, TCSC_T_BUS\] = e2i\[[^\n]*\n', "\n", s, count=1), "tcsc.TCSC_T_BUS"),
         V("vsc dc bus remapped with ac lookup", pd, replace_once("ppc['vsc'][:, VSC_BUS_DC] = e2i_dc[", "ppc['vsc'][:, VSC_BUS_DC] = e2i["), "vsc.VSC_BUS_DC"),
         V("ssc internal bus dropped", pd, lambda s: re.sub(r"\n    ppc\['ssc'\]\[:, SSC_INTERNAL_BUS\] = e2i\[[^\n]*\n", "\n", s, count=1), "ssc.SSC_INTERNAL_BUS"),
